@@ -270,7 +270,7 @@ func specConfigs(a axes, thorough bool) []Config {
 	var out []Config
 	specPaths := []string{unset, "", "x", "/x/y/"}
 	docs := []string{unset, "openapi.json", "", "d/e.json"}
-	bytesAlpha := []string{`{"swagger":"2.0","info":{"title":"<b>&\"'","version":"1"},"paths":{}}` + "\n", "not json at all \xff\x00<html>"}
+	bytesAlpha := []string{`{"swagger":"2.0","info":{"title":"<b>&\"'","version":"1"},"paths":{}}` + "\n", "not json at all \u00e9\x00<html>"}
 	if thorough {
 		specPaths = append(specPaths, "../up", mk("Pq"))
 		docs = append(docs, "spec", "swagger.json/", mk("Aq")+".json")
@@ -395,10 +395,10 @@ func main() {
 		r.Finish("replay of one case", false)
 	}
 
-	stopProf := startProf()
 	a := theAxes(r.Thorough())
 	var mu sync.Mutex
 	perKind := map[string]int{}
+	confirmed := map[string]int{}
 	var nTargets, nConfigs int64
 
 	// runConfig executes every derived request of one configuration.
@@ -429,9 +429,16 @@ func main() {
 				}
 				if v.Class != "" {
 					cs := Case{Cfg: c, Method: method, Target: g.T, Body: body}
-					cl, what := check(cs) // confirm from scratch; the replay does exactly this
-					if cl == "" {
-						cl, what = "not-reproducible-in-isolation", "failed inside the sweep ("+v.Class+": "+v.What+") but not when run alone"
+					cl, what := v.Class, v.What
+					mu.Lock()
+					confirmed[cl]++
+					confirm := confirmed[cl] <= 8
+					mu.Unlock()
+					if confirm {
+						// the first failures of every class are re-decided from scratch, exactly as --replay does
+						if cl, what = check(cs); cl == "" {
+							cl, what = "not-reproducible-in-isolation", "failed inside the sweep ("+v.Class+": "+v.What+") but not when run alone"
+						}
 					}
 					r.Fail(cl, what, cs)
 				}
@@ -440,7 +447,7 @@ func main() {
 				break // nothing to send requests to; one verdict per configuration
 			}
 		}
-		if r.WantSample() && (si+int(r.Seed))%211 == 0 && len(tg) > 0 {
+		if r.WantSample() && ((si+int(r.Seed%211))%211+211)%211 == 0 && len(tg) > 0 {
 			g := tg[(si/211)%len(tg)]
 			r.Sample(map[string]any{"cfg": c, "method": "GET", "target": g.T, "locations": b.m.Locs})
 		}
@@ -492,7 +499,6 @@ func main() {
 		flush(t)
 	})
 
-	stopProf()
 	kinds := make([]string, 0, len(perKind))
 	for k := range perKind {
 		kinds = append(kinds, k)
